@@ -18,7 +18,40 @@ ID = 'C13'
 NAMESPACE = 'VL.C13'
 LEAN_MODULES = ['VotelibProofs.Props.C13']
 GEN_MODULES = ['RankScore']
-REQUIRED = []          # filled below (after the theorem list)
+REQUIRED = [
+    'firstPreference_eq_accum', 'firstPreference_sum', 'firstPreference_additive', 'firstPreference_additive_merged',
+    'firstPreference_single', 'firstPreference_weight_conserved', 'firstPreference_is_dict', 'firstPreference_keys',
+    'approvalToSimple_sum', 'approvalToSimple_rejects', 'approvalToSimple_additive',
+    'approvalToSimple_additive_merged', 'approvalImage_nodup', 'approvalToSimple_weight_conserved',
+    'presenceCounts_sum', 'presenceCounts_additive', 'presenceCounts_additive_merged', 'presence_of_nodup',
+    'presenceCounts_single', 'presenceCounts_is_dict', 'presenceCounts_weight', 'rankedToApproval_eq_accum',
+    'rankedToApproval_sum', 'rankedToApproval_additive', 'rankedToApproval_additive_merged',
+    'rankedToApproval_single', 'rankedToApproval_same_key', 'rankedToApproval_weight_conserved',
+    'rankedToApproval_is_dict', 'firstN_eq_accum', 'firstN_sum', 'firstN_additive', 'firstN_additive_merged',
+    'firstN_single', 'pyTake_nonneg', 'firstN_weight_conserved', 'firstN_is_dict', 'firstN_flat_image_partial',
+    'firstN_flat_image_witness', 'covers_allRankedCandidates', 'positional_sum', 'positional_additive',
+    'positional_additive_merged', 'rankedToPositional_additive', 'rankedToPositional_keys', 'posImage_eq_sum',
+    'borda_score_at', 'borda_rejects', 'dowdall_score_at', 'geometric_score_at', 'modifiedBorda_score_at',
+    'fixedTop_score_at', 'sequence_score_at', 'positional_borda_rejects', 'condorcet_sum', 'condorcet_additive',
+    'condorcet_additive_merged', 'rankedToCondorcet_additive_nobottom', 'rankedToCondorcet_additive',
+    'condorcet_single', 'pairwise_le_total', 'rankedToCondorcet_pairwise_le_total', 'condorcet_irreflexive',
+    'condorcet_is_dict', 'pairwise_le_total_needs_nodup', 'scoreToRanked_eq_accum', 'scoreToRanked_sum',
+    'scoreToRanked_additive', 'scoreToRanked_additive_merged', 'scoreToRanked_additive_none',
+    'scoreToRanked_weight_conserved', 'scoreToRanked_is_dict', 'scoreToApproval_eq_accum', 'scoreToApproval_sum',
+    'scoreToApproval_additive', 'scoreToApproval_additive_merged', 'scoreToApproval_image',
+    'scoreToApproval_weight_conserved', 'scoreToApproval_is_dict', 'invertedSimple_image', 'invertedSimple_toFun',
+    'invertedSimple_additive_merged', 'invertedApproval_sum', 'invertedApproval_image', 'awf_mergeDict',
+    'invertedApproval_additive_merged', 'invertedApproval_weight_conserved', 'voteTotals_sum', 'voteTotals_additive',
+    'voteTotals_additive_merged', 'voteTotals_weight_conserved', 'voteTotals_is_dict', 'constituencyTotals_sum',
+    'constituencyTotals_additive_merged', 'subsetted_eq_accum', 'subsetted_sum', 'subsetted_additive',
+    'subsetted_additive_merged', 'subsetted_weight_conserved', 'subsetted_is_dict', 'subsetSimple_image',
+    'subsetApproval_image', 'subsetRanked_image', 'subsetScore_image', 'subsetted_weight_conserved_ranked',
+    'subsetted_weight_conserved_approval', 'subsetted_weight_conserved_score', 'mapKey_image',
+    'individualToParty_sum', 'individualToParty_rejects', 'individualToParty_additive_merged', 'rounded_image',
+    'rounded_value', 'rounded_additive_disjoint', 'rounded_not_additive_witness', 'chain_nil', 'chain_cons',
+    'chain_append', 'conv_chain', 'approvalUnsplit_sum', 'chain_ranked_approval_simple',
+    'chain_ranked_approval_simple_additive', 'chain_two_additive', 'chain_score_approval_simple_additive',
+]
 TRUSTED = ['Python set/dict iteration order of converter outputs is not observable: outputs compare as maps, '
            'frozensets as sorted id lists']
 
